@@ -4,6 +4,7 @@ package main
 
 import (
 	"fmt"
+	"math/big"
 	"go/token"
 	"go/types"
 	"sort"
@@ -79,6 +80,8 @@ type frame struct {
 	tuples   map[ssa.Value][]sval
 	closures map[ssa.Value]*ssa.MakeClosure
 	deferredBy *frame
+	ptrBind  map[string]*lval
+	namePos  map[string][]token.Pos
 }
 
 type fnTrans struct {
@@ -103,6 +106,8 @@ type fnTrans struct {
 	retCount int
 	usedSpecFuncs map[string]bool
 	curPos token.Pos
+	callSites map[ssa.Instruction]string
+	usedAsserts map[string]bool
 }
 
 type writeRange struct {
@@ -155,9 +160,9 @@ func (t *fnTrans) allocTop() *Cell { return t.global("allocTop", t.th.Addr()) }
 func (t *fnTrans) objTop() *Cell   { return t.global("objTop", t.th.Addr()) }
 
 const (
-	nFieldSlots = 64      // object ids of embedded structs: obj*64 + k
+	nFieldSlots = 30      // field slots for embedded structs / arrays
 	embArrBase  = 1 << 52 // element addresses of arrays embedded in structs
-	embArrSpan  = 1 << 24
+	embArrSpan  = 1 << 17
 	addrLimit   = 1 << 47
 )
 
@@ -165,24 +170,39 @@ func (t *fnTrans) fieldSlot(st *types.Named, idx int) int64 {
 	return t.eng.fieldSlot(st, idx)
 }
 
+// Object ids: a root object (allocated, parameter, global) has an id < 2^16.
+// Every struct- or array-typed field of the repository has its own slot k; the
+// id of field k embedded in object id o is o + 2^(16+k). A path of embeddings is
+// therefore a bit set above bit 16 (a type nests each field at most once), the
+// root is id mod 2^16, and the encoding is the same at every nesting depth, so
+// it commutes with passing an embedded object to a callee.
+const rootBits = 16
+
 // embObj: object id of struct-typed field idx of obj.
 func (t *fnTrans) embObj(obj Expr, st *types.Named, idx int) Expr {
 	k := t.fieldSlot(st, idx)
+	off := new(big.Int).Lsh(big.NewInt(1), uint(rootBits+k))
 	if t.th.bv {
-		return mk("bvadd", BV(64), mk("bvmul", BV(64), obj, BVLit64(nFieldSlots, 64)), BVLit64(uint64(k), 64))
+		return mk("bvadd", BV(64), obj, BVLit(off, 64))
 	}
-	return IAdd(IMul(obj, IntLit(nFieldSlots)), IntLit(k))
+	return IAdd(obj, BigLit(off))
 }
 
 // embArr: base element address of array-typed field idx of obj.
 func (t *fnTrans) embArr(obj Expr, st *types.Named, idx int) Expr {
-	k := t.fieldSlot(st, idx)
+	id := t.embObj(obj, st, idx)
 	if t.th.bv {
-		id := mk("bvadd", BV(64), mk("bvmul", BV(64), obj, BVLit64(nFieldSlots, 64)), BVLit64(uint64(k), 64))
 		return mk("bvadd", BV(64), BVLit64(embArrBase, 64), mk("bvmul", BV(64), id, BVLit64(embArrSpan, 64)))
 	}
-	id := IAdd(IMul(obj, IntLit(nFieldSlots)), IntLit(k))
 	return IAdd(IntLit(embArrBase), IMul(id, IntLit(embArrSpan)))
+}
+
+// rootOfID: the root object of an object id.
+func (t *fnTrans) rootOfID(id Expr) Expr {
+	if t.th.bv {
+		return mk("bvand", BV(64), id, BVLit64((1<<rootBits)-1, 64))
+	}
+	return mk("mod", SInt, id, IntLit(1<<rootBits))
 }
 
 func namedStruct(t types.Type) (*types.Named, *types.Struct) {
@@ -209,20 +229,20 @@ func (t *fnTrans) typeInv(e Expr, typ types.Type) Expr {
 	case *types.Slice:
 		p, l, c := th.SPtr(e), th.SLen(e), th.SCap(e)
 		if th.bv {
-			lim := BVLit64(addrLimit, 64)
-			return And(mk("bvule", SBool, l, c), mk("bvult", SBool, c, lim), mk("bvult", SBool, p, lim),
+			lim := BVLit64(1<<61, 64)
+			return And(mk("bvule", SBool, l, c), mk("bvult", SBool, c, BVLit64(addrLimit, 64)), mk("bvult", SBool, p, lim),
 				Implies(Eq(p, BVLit64(0, 64)), Eq(c, BVLit64(0, 64))),
 				Implies(Not(Eq(c, BVLit64(0, 64))), mk("bvuge", SBool, p, BVLit64(4096, 64))))
 		}
-		lim := IntLit(addrLimit)
-		return And(ILe(IntLit(0), l), ILe(l, c), ILe(IntLit(0), p), ILt(IAdd(p, c), lim),
+		lim := IntLit(1 << 61)
+		return And(ILe(IntLit(0), l), ILe(l, c), ILt(c, IntLit(addrLimit)), ILe(IntLit(0), p), ILt(IAdd(p, c), lim),
 			Implies(Eq(p, IntLit(0)), Eq(c, IntLit(0))),
 			Implies(IGt(c, IntLit(0)), IGe(p, IntLit(4096))))
 	case *types.Pointer, *types.Interface, *types.Signature, *types.Struct:
 		if th.bv {
-			return mk("bvult", SBool, e, BVLit64(1<<40, 64))
+			return mk("bvult", SBool, e, BVLit64(1<<47, 64))
 		}
-		return And(ILe(IntLit(0), e), ILt(e, IntLit(1<<40)))
+		return And(ILe(IntLit(0), e), ILt(e, IntLit(1<<47)))
 	}
 	return nil
 }
@@ -390,7 +410,16 @@ func (t *fnTrans) checkWrite(mem *Cell, lo, hi Expr, what string) {
 	th := t.th
 	var alts []Expr
 	alts = append(alts, th.ALe(hi, lo)) // empty
-	alts = append(alts, th.ALe(t.oldOf(t.allocTop()), lo))
+	// memory allocated by this activation: heap blocks above the old allocation top ...
+	alts = append(alts, And(th.ALe(t.oldOf(t.allocTop()), lo), th.ALt(lo, th.AddrLit(embArrBase))))
+	// ... or an array embedded in an object allocated by this activation
+	var id Expr
+	if th.bv {
+		id = mk("bvlshr", BV(64), mk("bvsub", BV(64), lo, BVLit64(embArrBase, 64)), BVLit64(17, 64))
+	} else {
+		id = mk("div", SInt, ISub(lo, IntLit(embArrBase)), IntLit(embArrSpan))
+	}
+	alts = append(alts, And(th.ALe(th.AddrLit(embArrBase), lo), th.ALe(t.oldOf(t.objTop()), t.rootOfID(id))))
 	for _, w := range t.writeRanges {
 		if w.mem.Name != mem.Name {
 			continue
@@ -416,24 +445,7 @@ func (t *fnTrans) checkModField(heap *Cell, obj Expr) {
 
 // isFreshObj: obj (possibly an embedded sub-object id) was allocated by this activation.
 func (t *fnTrans) isFreshObj(obj Expr) Expr {
-	return t.th.ALe(t.oldOf(t.objTop()), t.rootOf(obj))
-}
-
-// rootOf strips embedding arithmetic syntactically: (obj*64+k) -> obj.
-func (t *fnTrans) rootOf(obj Expr) Expr {
-	for {
-		a, ok := obj.(*App)
-		if !ok || len(a.Args) != 2 {
-			return obj
-		}
-		if a.Op == "+" || a.Op == "bvadd" {
-			if m, ok := a.Args[0].(*App); ok && (m.Op == "*" || m.Op == "bvmul") && len(m.Args) == 2 {
-				obj = m.Args[0]
-				continue
-			}
-		}
-		return obj
-	}
+	return t.th.ALe(t.oldOf(t.objTop()), t.rootOfID(obj))
 }
 
 // ---------------------------------------------------------------------
@@ -577,11 +589,16 @@ func rpo(fn *ssa.Function) []*ssa.BasicBlock {
 		post = append(post, b)
 	}
 	dfs(fn.Blocks[0])
-	if fn.Recover != nil && !seen[fn.Recover] {
-		dfs(fn.Recover)
-	}
 	for i, j := 0, len(post)-1; i < j; i, j = i+1, j-1 {
 		post[i], post[j] = post[j], post[i]
+	}
+	if fn.Recover != nil && !seen[fn.Recover] {
+		n := len(post)
+		dfs(fn.Recover)
+		tail := post[n:]
+		for i, j := 0, len(tail)-1; i < j; i, j = i+1, j-1 {
+			tail[i], tail[j] = tail[j], tail[i]
+		}
 	}
 	return post
 }
@@ -824,7 +841,7 @@ func (f *frame) alloc(x *ssa.Alloc) {
 		f.zeroStruct(obj, elem)
 		sv := sval{e: obj, typ: x.Type()}
 		f.setVal(x, sv)
-		f.names[name] = append(f.names[name], sval{e: f.vals[x].e, typ: x.Type()})
+		f.addName(name, x, sval{e: f.vals[x].e, typ: x.Type()})
 	case *types.Array:
 		// fresh region in element memory
 		n := u.Len()
@@ -833,15 +850,35 @@ func (f *frame) alloc(x *ssa.Alloc) {
 		t.cur.Assume(th.ALt(t.allocTop(), th.AddrLit(addrLimit)))
 		f.zeroRange(t.mem(u.Elem()), base, n, u.Elem())
 		f.setVal(x, sval{e: base, typ: x.Type()})
-		f.names[name] = append(f.names[name], sval{e: f.vals[x].e, typ: x.Type()})
+		f.addName(name, x, sval{e: f.vals[x].e, typ: x.Type()})
 	default:
 		c := &Cell{fmt.Sprintf("%s%s@%s", f.prefix, sanitize(name), x.Name()), th.SortOf(elem)}
 		t.cur.Assign(c, th.Zero(elem))
 		lv := &lval{kind: lvCell, cell: c, typ: elem}
 		f.vals[x] = sval{typ: x.Type(), lv: lv}
-		f.names[name] = append(f.names[name], sval{e: c, typ: elem, lv: lv})
+		f.addName(name, x, sval{e: c, typ: elem, lv: lv})
 		t.cellTyp[c.Name] = elem
 	}
+}
+
+// addName registers a named local; declarations are kept in source order (name@k).
+func (f *frame) addName(name string, x *ssa.Alloc, sv sval) {
+	if f.namePos == nil {
+		f.namePos = map[string][]token.Pos{}
+	}
+	pos := x.Pos()
+	list, ps := f.names[name], f.namePos[name]
+	i := len(list)
+	for i > 0 && ps[i-1] > pos {
+		i--
+	}
+	list = append(list, sval{})
+	copy(list[i+1:], list[i:])
+	list[i] = sv
+	ps = append(ps, 0)
+	copy(ps[i+1:], ps[i:])
+	ps[i] = pos
+	f.names[name], f.namePos[name] = list, ps
 }
 
 func (f *frame) zeroStruct(obj Expr, typ types.Type) {
@@ -887,6 +924,20 @@ func (f *frame) zeroRange(mem *Cell, base Expr, n int64, elem types.Type) {
 
 func (f *frame) storeTo(addr sval, v sval, vtyp types.Type) {
 	t := f.t
+	if addr.lv != nil && addr.lv.kind == lvCell && v.e == nil && v.lv != nil {
+		// a pointer-to-scalar held in a local (parameter spill of an inlined callee): bind statically
+		if f.ptrBind == nil {
+			f.ptrBind = map[string]*lval{}
+		}
+		if old, dup := f.ptrBind[addr.lv.cell.Name]; dup && old != v.lv {
+			fail("pointer variable %s is assigned more than once", addr.lv.cell.Name)
+		}
+		f.ptrBind[addr.lv.cell.Name] = v.lv
+		return
+	}
+	if v.e == nil {
+		fail("store of a value without a term (closure or pointer-to-scalar escaping)")
+	}
 	if addr.lv != nil {
 		f.store(addr.lv, v.e)
 		return
@@ -975,6 +1026,12 @@ func (f *frame) unop(x *ssa.UnOp) {
 	switch x.Op {
 	case token.MUL: // load
 		p := f.val(x.X)
+		if p.lv != nil && p.lv.kind == lvCell && f.ptrBind != nil {
+			if b, ok := f.ptrBind[p.lv.cell.Name]; ok {
+				f.vals[x] = sval{typ: x.Type(), lv: b}
+				return
+			}
+		}
 		if p.lv != nil {
 			f.setVal(x, sval{e: f.load(p.lv), typ: x.Type()})
 			return
